@@ -53,3 +53,10 @@ package requestcontext
 //@   ensures old(r.savedBody) != nil && old(r.req.Body) != nil && old(r.req.Body) != http.NoBody ==> ret0 == old(r.savedBody) && bread.n == old(bread.n)
 //@   ensures old(r.req.Body) == nil || old(r.req.Body) == http.NoBody ==> ret0 == iface("") && bread.n == old(bread.n)
 //@   ensures old(r.savedBody) == nil && old(r.req.Body) != nil && old(r.req.Body) != http.NoBody ==> bread.n == old(bread.n) + 1 && bread.arg1[old(bread.n)] == old(r.req.Body)
+
+// C13: the HTTP services read cookies through net/http's parser (ghost log rcook = Request.Cookie)
+//@ func (*RequestContext).Cookie
+//@   props C13
+//@   ensures rcook.n == old(rcook.n) + 1 && rcook.arg0[old(rcook.n)] == r.req && rcook.arg1[old(rcook.n)] == name
+//@   ensures rcook.ret1[old(rcook.n)] == nil ==> ret0 == rcook.ret0[old(rcook.n)].Value
+//@   ensures rcook.ret1[old(rcook.n)] != nil ==> ret0 == ""
